@@ -20,6 +20,33 @@ CHECKS = {
         "technique": "Lean 4 proof (mutual structural induction over layouts) + regenerated tables + model/implementation correspondence",
         "design_ref": "DESIGN.md §8 C01",
     },
+    "C16": {
+        "text": "Theorems: the byte form is the big-endian two's-complement encoding of the declared width and round-trips in both directions for every "
+                "width/signedness/integer (C16.c16_roundtrip, c16_roundtrip_bytes, c16_width); Python's delegation of to_bytes to looked-up enum instances "
+                "cannot change the width (c16_owners_tables over all 102 types + c16_toBytes_declared); validity = membership in the declared set for every "
+                "integer (c16_valid_iff); declared values never overflow (c16_declared_fit_tables, c16_valid_fits); the operator table read from numeric()'s "
+                "source is exactly the plain-integer operators in the stated operand order (c16_ops). The naming/validity model is tied to the code by an "
+                "exhaustive (1-byte types; 2-byte in thorough) / boundary+random differential run and the implementation is compared with the model over the PINNED tables.",
+        "technique": "Lean 4 proofs (codec arithmetic, kernel-decided table theorems) + differential run over all 102 primitive types",
+        "design_ref": "DESIGN.md §8 C16",
+    },
+    "C17": {
+        "text": "c17_partition_tables: for every TPMA_* type regenerated from /repo the field masks are pairwise disjoint and cover the word (kernel-decided); "
+                "c17_accessor: for every value and non-empty mask the accessor loop returns (v & mask) >> ctz(mask); c17_overlay: for every partitioning mask "
+                "list, word and bit position exactly one row shows the value's bit and all others a dot. Accessors, attributes() and the pretty printer's rows "
+                "of the real code are compared with the model on all 8-bit values and structured 32-bit patterns.",
+        "technique": "Lean 4 proofs (bit arithmetic by induction, kernel-decided mask tables) + differential run on accessors and printer rows",
+        "design_ref": "DESIGN.md §8 C17",
+    },
+    "C18": {
+        "text": "c18_format: for EVERY natural number that is zero or has a non-zero low 12 bits, the mask arithmetic of TPM_RC.__format__ (constants regenerated "
+                "from tpm_rc.py, c18_masks) yields the classification the TPM 2.0 bit layout dictates (rcSpec on bit positions) - proved by reduction to the low "
+                "12 bits (and/testBit/mod lemmas) and a kernel-decided table of all 4096 residues; c18_rows_class + c18_rows_partition: the rows follow the "
+                "classification and partition the 32-bit word; name maps equal the pinned ones. Text and rows of the real code are compared exhaustively "
+                "(all qualifying 12-bit values x 5 high-bit patterns) with the spec and the model.",
+        "technique": "Lean 4 proof (bit-level case reduction + kernel-decided finite table) + exhaustive differential run",
+        "design_ref": "DESIGN.md §8 C18",
+    },
     "C20": {
         "text": "Every clause is a theorem over the whole regenerated table, decided by the kernel (decide +kernel / rfl, no axioms beyond the standard "
                 "three): one map entry per command code named after it, handle areas <= 3 four-byte primitives, counted lists follow unsigned counts, "
